@@ -191,13 +191,13 @@ class Inheritance(vppfs.VPPModelElement):
     def PostProjectParseFix(self, classDiagram):
         try:
             cl_fr = classDiagram.classes[self.CLASS_FROM_ID]
-            self.CLASS_FROM = cl_fr.NAMESPACE + "::" + cl_fr.NAME
+            self.CLASS_FROM = cl_fr.NAMESPACE + "::" + cl_fr.NAME if cl_fr.NAMESPACE else cl_fr.NAME
         except KeyError:
             print("Warning : class " + self.CLASS_FROM + " does not exist.")
 
         try:
             cl_to = classDiagram.classes[self.CLASS_TO_ID]
-            self.CLASS_TO = cl_to.NAMESPACE + "::" + cl_to.NAME
+            self.CLASS_TO = cl_to.NAMESPACE + "::" + cl_to.NAME if cl_to.NAMESPACE else cl_to.NAME
         except KeyError:
             print("Warning : class " + self.CLASS_TO + " does not exist.")
 
